@@ -37,6 +37,29 @@ type corpus struct {
 	hash     [][32]byte // of pristine
 	diHash   []string   // role di: digest of the freshly built DecryptInfo
 	nbytes   int        // inputs [0,nbytes) are byte slices, [nbytes, len(info)) are shared DecryptInfos
+	firstAC3 int        // inputs [firstAC3, endAC3) hold dac3 / dec3 boxes
+	endAC3   int
+	boxTypes map[string]bool // box types present in the zoo inputs
+	lean     map[int]bool    // inputs of which a SliceReader decode keeps no byte slice at all (measured, see measureLean)
+}
+
+// measureLean: which inputs decode through a SliceReader into structures that hold no sub-slice of the buffer
+// (e.g. a lone dac3 box: all fields are numbers).  For these the table's "payload lives in the input" is vacuous.
+func (c *corpus) measureLean() {
+	c.lean = map[int]bool{}
+	for k := 0; k < c.nbytes; k++ {
+		func() {
+			defer func() { _ = recover() }()
+			buf := hx.Exact(c.pristine[k])
+			f, err := mp4.DecodeFileSR(bits.NewFixedSliceReader(buf))
+			if err != nil || f == nil {
+				return
+			}
+			if len(aliasOf(&object{file: f}, [][]byte{buf})) == 0 {
+				c.lean[k] = true
+			}
+		}()
+	}
 }
 
 // world: what the goroutines of one run share read-only: the input byte slices and, as the only shared
@@ -47,7 +70,22 @@ type world struct {
 	dis   []*mp4.DecryptInfo // index k-nbytes; built on demand in private worlds
 }
 
+// goroutineKey: goroutine t of a round uses key t%3 for all its en/decryption (0: the key the corpus was protected
+// with; decrypting with another key gives different but deterministic bytes).  Distinct keys in concurrent goroutines
+// make any key- or cipher-caching state in the library visible to the result oracle.
+func goroutineKey(t int) []byte {
+	switch t % 3 {
+	case 1:
+		return altKey1
+	case 2:
+		return altKey2
+	}
+	return cryptKey
+}
+
 var (
+	altKey1, _  = hex.DecodeString("a0a1a2a3a4a5a6a7a8a9aaabacadaeaf")
+	altKey2, _  = hex.DecodeString("0f1e2d3c4b5a69788796a5b4c3d2e1f0")
 	cryptKey, _ = hex.DecodeString("00112233445566778899aabbccddeeff")
 	cryptIV, _  = hex.DecodeString("ffeeddccbbaa99887766554433221100")
 	cryptKid, _ = mp4.NewUUIDFromString("11112222333344445555666677778888")
@@ -179,7 +217,7 @@ func randomisedAudio(clear []byte, rng *hx.Rng) []byte {
 }
 
 func buildCorpus(repo string, seed uint64) *corpus {
-	c := &corpus{}
+	c := &corpus{boxTypes: map[string]bool{}}
 	add := func(name, role, codec string, enc bool, scheme string, data []byte) int {
 		c.info = append(c.info, inputInfo{name: name, role: role, codec: codec, enc: enc, scheme: scheme})
 		c.pristine = append(c.pristine, hx.Exact(data))
@@ -241,7 +279,22 @@ func buildCorpus(repo string, seed uint64) *corpus {
 	add("init_prog.mp4", "other", "", false, "", mustRead(repo, "init_prog.mp4"))
 	add("moof_enc.m4s", "other", "", false, "", mustRead(repo, "moof_enc.m4s"))
 	add("bbb5s_aac_sidx.mp4", "other", "", false, "", mustRead(repo, "bbb5s_aac_sidx.mp4"))
+	// AC-3 / E-AC-3: single dac3 / dec3 boxes (every acmod, with and without LFE; dependent substreams with channel
+	// locations) and init segments whose sample entries were built by SetAC3Descriptor / SetEC3Descriptor
+	c.firstAC3 = len(c.info)
+	for _, a := range ac3Inputs(rng) {
+		add(a.name, "abox", "", false, "", a.data)
+	}
+	c.endAC3 = len(c.info)
+	// box zoo: sample files of the repository chosen greedily so that every box type they contain is present
+	for _, z := range zooInputs(repo) {
+		add("zoo:"+z.name, "zoo", "", false, "", z.data)
+		for t := range z.types {
+			c.boxTypes[t] = true
+		}
+	}
 	c.nbytes = len(c.info)
+	c.measureLean()
 	// shared DecryptInfos: one per encrypted init
 	for _, k := range encInits {
 		c.info = append(c.info, inputInfo{name: "DecryptInfo(" + c.info[k].name + ")", role: "di", codec: c.info[k].codec,
@@ -494,6 +547,7 @@ type object struct {
 type opResult struct {
 	class  string // ok | err | panic | skip
 	digest string
+	bad    string // non-empty: the result contradicts the harness's independent reference (AC-3 channel tables)
 }
 
 func sum(b []byte) string {
@@ -502,7 +556,7 @@ func sum(b []byte) string {
 }
 
 // execOp runs one op on the goroutine's objects; inputs are the byte slices "i<k>" refers to.
-func execOp(p op, objs map[int]*object, w *world) (res opResult) {
+func execOp(p op, objs map[int]*object, w *world, cryptKey []byte) (res opResult) {
 	inputs := w.bytes
 	defer func() {
 		if r := recover(); r != nil {
@@ -540,7 +594,7 @@ func execOp(p op, objs map[int]*object, w *world) (res opResult) {
 			return opResult{class: "err"}
 		}
 		objs[p.d] = &object{file: f}
-		return opResult{"ok", fmt.Sprintf("boxes=%d,segs=%d,size=%d", len(f.Children), len(f.Segments), f.Size())}
+		return opResult{class: "ok", digest: fmt.Sprintf("boxes=%d,segs=%d,size=%d", len(f.Children), len(f.Segments), f.Size())}
 	case 'I', 'E', 'W':
 		o := get(p.o)
 		if o == nil || o.file == nil {
@@ -561,6 +615,11 @@ func execOp(p op, objs map[int]*object, w *world) (res opResult) {
 					return opResult{class: "err"}
 				}
 			}
+			// AC-3 / E-AC-3 configuration boxes: ChannelInfo against the harness's own tables
+			if bad := checkAC3(o.file, &b); bad != "" {
+				objs[p.d] = &object{buf: b.Bytes(), isBuf: true}
+				return opResult{"ok", fmt.Sprintf("len=%d,%s", b.Len(), sum(b.Bytes())), bad}
+			}
 			out = b.Bytes()
 		case 'E':
 			var b bytes.Buffer
@@ -576,7 +635,7 @@ func execOp(p op, objs map[int]*object, w *world) (res opResult) {
 			out = sw.Bytes()
 		}
 		objs[p.d] = &object{buf: out, isBuf: true}
-		return opResult{"ok", fmt.Sprintf("len=%d,%s", len(out), sum(out))}
+		return opResult{class: "ok", digest: fmt.Sprintf("len=%d,%s", len(out), sum(out))}
 	case 'G':
 		o := get(p.o)
 		if o == nil || o.file == nil {
@@ -598,7 +657,7 @@ func execOp(p op, objs map[int]*object, w *world) (res opResult) {
 			}
 		}
 		objs[p.d] = &object{samples: all, isSamp: true}
-		return opResult{"ok", samplesDigest(all)}
+		return opResult{class: "ok", digest: samplesDigest(all)}
 	case 'C', 'c':
 		o := get(p.o)
 		if o == nil || o.file == nil || o.file.Init == nil {
@@ -619,7 +678,7 @@ func execOp(p op, objs map[int]*object, w *world) (res opResult) {
 				}
 			}
 		}
-		return opResult{"ok", ""}
+		return opResult{class: "ok"}
 	case 'X':
 		o := get(p.o)
 		if o == nil || o.file == nil || o.file.Init == nil {
@@ -634,7 +693,7 @@ func execOp(p op, objs map[int]*object, w *world) (res opResult) {
 				return opResult{class: "err"}
 			}
 		}
-		return opResult{"ok", ""}
+		return opResult{class: "ok"}
 	case 'K':
 		o := get(p.o)
 		if o == nil || o.file == nil || o.file.Init == nil {
@@ -646,7 +705,7 @@ func execOp(p op, objs map[int]*object, w *world) (res opResult) {
 			return opResult{class: "err"}
 		}
 		objs[p.d] = &object{di: &di, from: o.file}
-		return opResult{"ok", fmt.Sprintf("tracks=%d,%s", len(di.TrackInfos), diDigest(&di))}
+		return opResult{class: "ok", digest: fmt.Sprintf("tracks=%d,%s", len(di.TrackInfos), diDigest(&di))}
 	case 'Y':
 		m := get(p.o)
 		if m == nil || m.file == nil || len(p.src) < 2 {
@@ -670,7 +729,7 @@ func execOp(p op, objs map[int]*object, w *world) (res opResult) {
 				return opResult{class: "err"}
 			}
 		}
-		return opResult{"ok", ""}
+		return opResult{class: "ok"}
 	case 'P', 'p':
 		o := get(p.o)
 		if o == nil || o.file == nil || o.file.Init == nil {
@@ -686,7 +745,7 @@ func execOp(p op, objs map[int]*object, w *world) (res opResult) {
 			return opResult{class: "err"}
 		}
 		objs[p.d] = &object{ipd: ipd, from: o.file}
-		return opResult{"ok", scheme}
+		return opResult{class: "ok", digest: scheme}
 	case 'F':
 		m, k := get(p.o), get(p.d)
 		if m == nil || m.file == nil || k == nil || k.ipd == nil {
@@ -699,7 +758,7 @@ func execOp(p op, objs map[int]*object, w *world) (res opResult) {
 				}
 			}
 		}
-		return opResult{"ok", ""}
+		return opResult{class: "ok"}
 	case 'B':
 		o := get(p.o)
 		if o == nil || !o.isSamp {
@@ -708,7 +767,7 @@ func execOp(p op, objs map[int]*object, w *world) (res opResult) {
 		for i := range o.samples {
 			o.samples[i].Data = avc.ConvertSampleToByteStream(o.samples[i].Data)
 		}
-		return opResult{"ok", samplesDigest(o.samples)}
+		return opResult{class: "ok", digest: samplesDigest(o.samples)}
 	case 'N':
 		o := get(p.o)
 		if o == nil || !o.isSamp {
@@ -717,7 +776,7 @@ func execOp(p op, objs map[int]*object, w *world) (res opResult) {
 		for i := range o.samples {
 			o.samples[i].Data = avc.ConvertByteStreamToNaluSample(o.samples[i].Data)
 		}
-		return opResult{"ok", samplesDigest(o.samples)}
+		return opResult{class: "ok", digest: samplesDigest(o.samples)}
 	}
 	return opResult{class: "skip"}
 }
@@ -804,13 +863,13 @@ func finalDigest(objs map[int]*object) (res string) {
 }
 
 // runProgram executes a whole program; between(i) is called before op i (skew / Gosched injection).
-func runProgram(p []op, inputs *world, between func(i int)) (results []opResult, final string, objs map[int]*object) {
+func runProgram(p []op, inputs *world, key []byte, between func(i int)) (results []opResult, final string, objs map[int]*object) {
 	objs = map[int]*object{}
 	for i, o := range p {
 		if between != nil {
 			between(i)
 		}
-		results = append(results, execOp(o, objs, inputs))
+		results = append(results, execOp(o, objs, inputs, key))
 	}
 	return results, finalDigest(objs), objs
 }
